@@ -30,6 +30,7 @@ class OneWayBarrier : public galois::substrate::Barrier {
   std::condition_variable cond;
   unsigned count;
   unsigned total;
+  unsigned generation = 0;
 
 public:
   OneWayBarrier(unsigned p) { reinit(p); }
@@ -43,9 +44,17 @@ public:
 
   virtual void wait() {
     std::unique_lock<std::mutex> tmp(lock);
+    unsigned gen = generation;
     count += 1;
-    cond.wait(tmp, [this]() { return count >= total; });
-    cond.notify_all();
+    if (count >= total) {
+      // last arrival: reset for the next phase under the lock and release
+      // everybody waiting on this generation
+      count = 0;
+      ++generation;
+      cond.notify_all();
+    } else {
+      cond.wait(tmp, [this, gen]() { return gen != generation; });
+    }
   }
 
   virtual const char* name() const { return "OneWayBarrier"; }
@@ -69,11 +78,7 @@ public:
 
   virtual void wait() {
     barrier1.wait();
-    if (galois::substrate::ThreadPool::getTID() == 0)
-      barrier1.reinit(total);
     barrier2.wait();
-    if (galois::substrate::ThreadPool::getTID() == 0)
-      barrier2.reinit(total);
   }
 
   virtual const char* name() const { return "SimpleBarrier"; }
